@@ -43,7 +43,7 @@ ASSUMPTIONS = [
     "Vector has no print_ method; its entry points are str, repr, to_string",
 ]
 BOUND = {
-    "quick": "vectors: all sequences of length 0..3 over the 'quick' rendering alphabet (<= 8 values) of 14 dtypes; frames: all single-column frames of 0..2 rows over the same alphabets plus fixed 3-row columns, all ordered pairs of 11 column names, all ordered pairs of a 10-column menu at 0 and 3 rows, all triples of a 5-column menu at 3 rows; GeoJSON: 0..2 features x {null, Point, Polygon} x 3 property sets x {constructor, read from file}; ListOfDicts: all lists of 0..3 items over 8 items; configurations: full product (max_rows {None,1,2} x max_width {None,1,10,40} x truncate_width {None,1,2,5} | max_elements {None,0,1} | max_items {None,0,1}) x precision {0,2,6} x separator {'', ','} x PRINT_MAX_* {default, 2} x terminal {20, 80} x entry points",
+    "quick": "vectors: all sequences of length 0..3 over the 'quick' rendering alphabet (<= 8 values) of 14 dtypes; frames: all single-column frames of 0..2 rows over the same alphabets plus fixed 3-row columns, all ordered pairs of 11 column names, all ordered pairs of a 10-column menu at 0 and 3 rows, all triples of a 5-column menu at 3 rows; GeoJSON: 0..2 features x {null, Point, Polygon} x 3 property sets x {constructor, read from file}; ListOfDicts: all lists of 0..3 items over 8 items; configurations: full product (max_rows {None,1,2} x max_width {None,1,10,40} x truncate_width {None,1,2,5} | max_elements {None,0,1} | max_items {None,0,1}) x precision {0,2,6} x separator {'', ','} x PRINT_MAX_* {default, 2} x terminal {20, 80} x entry points, plus separator {apostrophe, space, no-break space} x terminal x entry points at precision 2",
     "thorough": "vectors: all sequences of length 0..3 over the 'thorough' alphabets (<= 12 values); frames: all single-column frames of 0..2 rows over the thorough alphabets and of 3 rows over their first 10 values, all ordered pairs of 15 column names, all ordered pairs of the 10-column menu at 0..3 rows and all triples at 0 and 3 rows; GeoJSON: 0..3 features; ListOfDicts: all lists of 0..3 items over 11 items; the same full configuration product",
 }
 TIME_CAP = {"quick": 600, "thorough": 3000}
@@ -173,6 +173,11 @@ def configs(cls):
     for prec, ksep, pmax, term in itertools.product(PRECISIONS, SEPARATORS, PMAX, TERMS):
         for entry, args in calls:
             out.append({"entry": entry, "args": args, "prec": prec, "ksep": ksep, "pmax": pmax, "term": term})
+    # separators that are not characters of Python's format mini-language (apostrophe, space, no-break space)
+    for ksep in ("'", " ", "\u00a0"):
+        for term in TERMS:
+            for entry, args in calls:
+                out.append({"entry": entry, "args": args, "prec": 2, "ksep": ksep, "pmax": None, "term": term})
     return out
 
 
